@@ -362,3 +362,9 @@ Definition rank (s : state) : nat :=
   h_weight (hpc s) + k_weight (kpc s) + s_weight (spc s) + a_weight (apc s) +
   2 * qb s + 3 * e_blocks s + tasks_weight (tasks s) + tasks_weight (restart s) +
   req_weight (e_tasks s).
+
+(* ---------------------------------------------------------------- the two configurations *)
+
+(* queueBlock holds 1024 blocks; the task channel at least MaxWaitingTaskNum+1 = 4 *)
+Definition cfg_found := {| f1fix := false; nilfix := false; qcap := 1024; cap := 4 |}.
+Definition cfg_repaired := {| f1fix := true; nilfix := true; qcap := 1024; cap := 4 |}.
